@@ -650,6 +650,9 @@ def main(argv):
     ap.add_argument('--only', help='comma separated contract fn names (debugging)')
     a = ap.parse_args(argv)
     seed = int(os.environ.get('VERIF_SEED', '0') or 0)
+    if a.prop == 'selftest':
+        # not a property check: the machinery against the seeded changes (private copies of /repo; slow)
+        return subprocess.call([os.path.join(VERIF, 'tools', 'run_seeded.py'), '--tier', a.tier])
     if a.prop not in PROPS:
         log('unknown property %s' % a.prop)
         return 2
